@@ -35,6 +35,24 @@ def cases(ctx):
                 if k % N != S:
                     continue
                 yield {"k": "rt", "mode": mode, "key": gen.rbytes(r, kl).hex(), "iv": gen.rbytes(r, 16).hex(), "msg": gen.rbytes(r, L).hex()}
+    # messages that END in a well-formed PKCS#7 padding run (n bytes of value n), block-aligned or not; and misaligned argument slices
+    for mode, kl in MODES.items():
+        for nrun in list(range(1, 17)) + [32]:
+            k += 1
+            if k % N != S:
+                continue
+            for total in (16, 32, 48, 31, 17):
+                if total < min(nrun, 16):
+                    continue
+                m = gen.rbytes(r, max(0, total - nrun)) + bytes([nrun & 0xFF if nrun <= 16 else 16]) * nrun
+                m = m[-total:] if len(m) > total else m
+                yield {"k": "rt", "mode": mode, "key": gen.rbytes(r, kl).hex(), "iv": gen.rbytes(r, 16).hex(), "msg": m.hex(), "rel": "message_ends_in_padding_run"}
+        for off in (1, 2, 3, 4, 5, 7, 8, 9, 15):
+            k += 1
+            if k % N != S:
+                continue
+            for L in (15, 16, 17, 33, 64, 100):
+                yield {"k": "rt", "mode": mode, "key": gen.rbytes(r, kl).hex(), "iv": gen.rbytes(r, 16).hex(), "msg": gen.rbytes(r, L).hex(), "misalign": off}
     if S == 0:
         ctx.exhaustive.append("every message length 0..%d in each of the four modes" % (300 if t else 80))
     # CTR carries: low 64 bits end in ff..ff at every byte position, message long enough to cross it
@@ -98,6 +116,14 @@ def cases(ctx):
             if iv is not None:
                 for L in (1, 2, 3, 17):
                     yield {"k": "rt", "mode": mode, "key": key.hex(), "iv": iv.hex(), "msg": gen.rbytes(r, L).hex(), "rel": "keystream_starts_with_zero"}
+    # long messages, generated inside the driver (byte i = 31*i+7 mod 256); the ciphertext comes back as length + SHA-256 + byte sum +
+    # head + tail and is compared with the reference ciphertext's
+    bi = 0
+    for L in [(1 << 16) + 7, (1 << 20) + 5] + ([(1 << 22) + 1] if t else []):
+        for mode, kl in MODES.items():
+            bi += 1
+            if bi % N == S:
+                yield {"k": "big", "mode": mode, "key": gen.rbytes(r, kl).hex(), "iv": (gen.rbytes(r, 12) + b"\xff\xff\xff" + bytes([r.randrange(200, 256)])).hex(), "len": L}
     # call SEQUENCES on one thread with structured keys that agree in folds / halves / words (state kept between calls, keyed on
     # part of the key only, shows as a wrong ciphertext for the later key)
     for mode, kl in MODES.items():
@@ -156,11 +182,14 @@ def judge(ctx, case):
             ctx.hit("rel_" + case["rel"])
         if len(m) >= 4096:
             ctx.hit("len>=4096")
-        r = ctx.call({"op": "aes", "mode": mode, "dir": "enc", "key": case["key"], "iv": case["iv"], "msg": case["msg"]})
+        mis = case.get("misalign", 0)
+        if mis:
+            ctx.hit("misaligned_slices")
+        r = ctx.call({"op": "aes", "mode": mode, "dir": "enc", "key": case["key"], "iv": case["iv"], "msg": case["msg"], "misalign": mis})
         ctx.ev()
         exp = aes.cbc_encrypt(key, iv, m) if mode.endswith("cbc") else aes.ctr(key, iv, m)
         if r.get("ok") != exp.hex():
-            ctx.viol("%s ciphertext differs from the reference%s" % (mode, " (counter carry)" if "carry" in case else ""), {"got": str(r.get("ok", r.get("err", r.get("panic"))))[:200], "exp": exp.hex()[:200]})
+            ctx.viol("%s ciphertext differs from the reference%s" % (mode, " (counter carry)" if "carry" in case else " (argument slices not 8-byte aligned)" if mis else " (message ends in a padding-like run)" if case.get("rel") == "message_ends_in_padding_run" else ""), {"got": str(r.get("ok", r.get("err", r.get("panic"))))[:200], "exp": exp.hex()[:200]})
             if "ok" not in r:
                 return
         ct = bytes.fromhex(r["ok"])
@@ -168,11 +197,25 @@ def judge(ctx, case):
         want_len = 16 * (len(m) // 16 + 1) if mode.endswith("cbc") else len(m)
         if len(ct) != want_len:
             ctx.viol("%s ciphertext length is wrong" % mode, {"len": len(ct), "want": want_len})
-        r2 = ctx.call({"op": "aes", "mode": mode, "dir": "dec", "key": case["key"], "iv": case["iv"], "msg": r["ok"]})
+        r2 = ctx.call({"op": "aes", "mode": mode, "dir": "dec", "key": case["key"], "iv": case["iv"], "msg": r["ok"], "misalign": mis})
         ctx.hit("dec")
         ctx.ev()
         if r2.get("ok") != case["msg"]:
             ctx.viol("%s decrypt(encrypt(m)) != m" % mode, {"got": str(r2.get("ok", r2.get("err")))[:200]})
+    elif k == "big":
+        import hashlib
+
+        n = case["len"]
+        ctx.hit("long_message")
+        ctx.nontrivial()
+        m = (bytes((31 * i + 7) & 0xFF for i in range(256)) * (n // 256 + 1))[:n]
+        exp = aes.cbc_encrypt(key, iv, m) if mode.endswith("cbc") else aes.ctr(key, iv, m)
+        r = ctx.call({"op": "aes", "mode": mode, "dir": "enc", "key": case["key"], "iv": case["iv"], "msg_gen": {"len": n}, "digest_only": True, "guard": 8 * n + (64 << 20)}, watchdog=900)
+        ctx.ev()
+        o = r.get("ok")
+        want = {"len": len(exp), "sha256": hashlib.sha256(exp).hexdigest(), "sum": sum(exp), "head": exp[:32].hex(), "tail": exp[-32:].hex()}
+        if o != want:
+            ctx.viol("%s ciphertext of a long message differs from the reference (%s)" % (mode, "length" if not isinstance(o, dict) or o.get("len") != want["len"] else "head" if o.get("head") != want["head"] else "later blocks"), {"len": n, "got": str(o)[:300], "want": str(want)[:300]})
     elif k == "seq":
         m = bytes.fromhex(case["msg"])
         ctx.hit("key_sequence")
